@@ -14,7 +14,7 @@ ASSUMPTIONS = ["reference codec vf/ref/wire.py; 'script the library accepts' is 
 NSHARDS = {"quick": 32, "thorough": 64}
 BUDGET_S = {"quick": 200, "thorough": 1800}
 MIN_HITS = {
-    'quick': {"gen_accepted": 797, "build": 3987, "mutant": 10080, "mutant_accepted": 4152, "coinbase_tx": 71, "count>=253": 20, "scriptlen>=65536": 4},
+    'quick': {"gen_accepted": 872, "build": 4360, "mutant": 10080, "mutant_accepted": 4154, "coinbase_tx": 95, "count>=253": 20, "scriptlen>=65536": 12},
     'thorough': {"gen_accepted": 76894, "build": 384447, "mutant": 1075200, "mutant_accepted": 444103, "coinbase_tx": 6673, "count>=253": 28, "count>=65536": 2, "scriptlen>=65536": 5},
 }
 
@@ -120,6 +120,42 @@ def cases(ctx):
         tx["outs"][0]["value"] = v
         tx["outs"][1]["value"] = 0
         yield enc_case(tx, "ints")
+    # scripts with structure the random grammar rarely produces: several OP_ELSE in one conditional, empty branches, conditionals
+    # opened by each of the four openers, nested in pass and else branches - in an input and in an output
+    STRUCT = ["63676768", "635167526753 68".replace(" ", ""), "6367686367 67 68".replace(" ", ""), "64676767 68".replace(" ", ""), "63 63 67 67 68 67 67 68".replace(" ", ""), "63 67 63 67 67 68 67 68".replace(" ", ""),
+              "6368", "636768", "656768", "66676768", "51 63 00 67 51 67 00 68".replace(" ", ""), "63 64 65 66 68 68 68 68".replace(" ", ""), "63 4c00 67 4d0000 67 4e00000000 68".replace(" ", "")]
+    for si, sh in enumerate(STRUCT):
+        k += 1
+        if k % N != S:
+            continue
+        tx = gen.gen_tx(r, 2, 2, coinbase=False)
+        tx["ins"][si % 2]["script"] = bytes.fromhex(sh)
+        tx["outs"][(si + 1) % 2]["script"] = bytes.fromhex(sh)
+        yield enc_case(tx, "structural_scripts")
+    # script lengths spaced logarithmically (windows between the classic compact-size boundaries), in an input, an output and a coinbase input
+    for li, L in enumerate(sorted(set([75, 76, 255, 256, 520, 521] + [v for k_ in range(9, 18) for v in (2**k_ - 1, 2**k_, 2**k_ + 1, 3 * 2 ** (k_ - 1))] + [100000]))):
+        k += 1
+        if k % N != S:
+            continue
+        tx = gen.gen_tx(r, 1, 1, coinbase=False)
+        tx["ins"][0]["script"] = script_of_len(r, L)
+        tx["outs"][0]["script"] = script_of_len(r, L)
+        yield enc_case(tx, "log_spaced_script_length")
+        tx = gen.gen_tx(r, 1, 1, coinbase=False)
+        tx["ins"] = [gen.gen_txin(r, script=gen.rbytes(r, L), coinbase=True)]
+        yield enc_case(tx, "log_spaced_script_length")
+    # transactions WITHOUT inputs (and without outputs), with lock times / versions whose bytes look like the markers of other formats
+    # right after the version field (00 01 = segwit marker+flag, 00 00 00 00 00 EF = extended-format marker)
+    for li, (no_, lt) in enumerate([(0, 0xEF000000), (0, 0x000000EF), (0, 0), (0, 0xEF), (0, 0xFFFFFFFF), (1, 0xEF000000), (1, 0), (2, 0x01000000), (0, 0x00EF0000), (0, 0x0000EF00)]):
+        k += 1
+        if k % N != S:
+            continue
+        for ver in (1, 2, 0, 0xEF, r.getrandbits(32)):
+            tx = gen.gen_tx(r, 0, no_, coinbase=False)
+            tx["version"], tx["locktime"] = ver, lt
+            if no_:
+                tx["outs"][0]["value"] = r.choice([0x0000000000000001, 0xEF00000000000000, 0])
+            yield enc_case(tx, "no_inputs_marker_like")
     # repeated elements: two or more inputs naming the SAME outpoint (consensus-invalid, but a well-formed byte string all the same),
     # identical inputs, identical outputs
     for di in range(6):
@@ -508,6 +544,9 @@ def judge(ctx, case):
                 ctx.viol("input object's coinbase flag disagrees with what a decoder reads from its own serialisation (%s outpoint, after %s)" % ("null" if null else "real", what), {"bytes": snap["bytes"][:200], "flag": snap["coinbase"]})
             if snap["reparse_coinbase"].get("ok") != null:
                 ctx.note("txin_hist: reparse of the input's own bytes fails or reports another coinbase flag")
+            exp_tx = wire.tx_encode({"version": 1, "ins": [{"txid_wire": bytes.fromhex(m["txid"])[::-1], "vout": m["vout"], "script": bytes.fromhex(m["script"]), "seq": m["seq"]}], "outs": [], "locktime": 0}).hex()
+            if snap["tx_bytes"].get("ok") != exp_tx:
+                ctx.viol("a transaction to which this input object was added (add_input) does not serialise the input's current field values (%s outpoint, after %s)" % ("null" if null else "real", what), {"got": str(snap["tx_bytes"])[:300], "exp": exp_tx[:300]})
             if snap["tx_coinbase"] != null or snap["tx_coinbase_impl"] != null:
                 ctx.viol("a transaction holding only this input reports a coinbase flag that disagrees with its serialisation (%s outpoint, after %s)" % ("null" if null else "real", what), {"bytes": snap["bytes"][:200]})
             if (snap["txid_be"], snap["vout"], snap["seq"], snap["script"]) != (m["txid"], m["vout"], m["seq"], m["script"]):
